@@ -114,6 +114,10 @@ type c09Inst struct {
 	t      *document.Table
 	tokN   int
 	lastNT bool
+	// after a CopyTable step the history continues on the copy (which takes the original's place in the
+	// document); the original is kept and must never change again
+	orig     *document.Table
+	origDump string
 }
 
 type c09Cell struct {
@@ -288,6 +292,9 @@ func (i *c09Inst) Enabled(op int) bool {
 		return false
 	}
 	if o.kind == "MergeCellsRange" && i.args.NoRange {
+		return false
+	}
+	if o.kind == "CopyTable" && i.orig != nil {
 		return false
 	}
 	R := len(i.t.Rows)
@@ -726,7 +733,25 @@ func (i *c09Inst) Apply(op int) (string, []rep.Violation) {
 			add("W7-copy-changed-original", "", "the table changed while being copied")
 		}
 		i.lastNT = true
+		// the history goes on with a second, untouched copy put in the original's place in the document
+		var cp2 *document.Table
+		if p2 := guard(func() { cp2 = t.CopyTable() }); p2 == "" && cp2 != nil && cp2 != t {
+			for k, e := range i.doc.Body.Elements {
+				if e == interface{}(t) {
+					i.doc.Body.Elements[k] = cp2
+				}
+			}
+			i.orig, i.t = t, cp2
+			od, _ := json.Marshal(t)
+			i.origDump = string(od)
+		}
 		return "copied", viol
+	}
+	if i.orig != nil {
+		if od, _ := json.Marshal(i.orig); string(od) != i.origDump {
+			viol = append(viol, rep.Violation{Sig: "W7-op-on-copy-changes-original|" + o.kind, Clause: "W7", What: o.name + " on a copy changed the table it was copied from"})
+			i.origDump = string(od)
+		}
 	}
 	if err != nil {
 		if string(afterDump) != string(beforeDump) {
@@ -980,6 +1005,9 @@ func (i *c09Inst) Key() string {
 	s := c09Snapshot(i.t)
 	ren := map[string]string{}
 	var b strings.Builder
+	if i.orig != nil {
+		b.WriteString("copy;")
+	}
 	fmt.Fprintf(&b, "g%d;", s.Grid)
 	for _, r := range s.Rows {
 		for _, c := range r {
@@ -1088,7 +1116,7 @@ func xmlTableSnap(tbl *pkgmodel.Node) c09Snap {
 }
 
 func runC09(r *rep.Run) {
-	r.Rule = "BFS over histories of row/column insert/delete, cell writes, merges (horizontal/vertical/range), unmerge and copy on real tables, every position and range over -1..n+1; oracle after each call: W0 no panic, W1 error leaves the deep dump unchanged, W2 span sums = grid, W3 >=1 paragraph per cell, W4 vMerge continuations under a start, W5 untargeted cell contents where the plain rows-by-columns model puts them (exact on rectangular tables, frame condition otherwise), W6 accessors/iterator agree, W7 copies share nothing; state key = canonical dump with tokens renamed by first appearance; non-trivial = a call that changed the table or panicked; each distinct state saved and the w:tbl re-read"
+	r.Rule = "BFS over histories of row/column insert/delete, cell writes, merges (horizontal/vertical/range), unmerge and copy on real tables, every position and range over -1..n+1; oracle after each call: W0 no panic, W1 error leaves the deep dump unchanged, W2 span sums = grid, W3 >=1 paragraph per cell, W4 vMerge continuations under a start, W5 untargeted cell contents where the plain rows-by-columns model puts them (exact on rectangular tables, frame condition otherwise), W6 accessors/iterator agree, W7 copies share nothing, and after a copy the history continues on the copy (put in the original's place in the document) while the original must stay unchanged; state key = canonical dump with tokens renamed by first appearance; non-trivial = a call that changed the table or panicked; each distinct state saved and the w:tbl re-read"
 	r.Assume = []string{"cell widths and non-structural formatting are not part of the state key: no structural operation's verdict depends on them", "an invariant that was already broken before a call is attributed to the call that broke it, not to later ones"}
 	type phase struct {
 		seeds   []string
@@ -1098,9 +1126,9 @@ func runC09(r *rep.Run) {
 	var phases []phase
 	if r.Tier == "quick" {
 		phases = []phase{
-			{[]string{"1x1", "1x2", "2x1", "2x2"}, 3, false},
-			{[]string{"2x3", "3x3"}, 2, false},
-			{[]string{"foreign-ragged", "foreign-nogrid", "foreign-spans", "foreign-nested"}, 2, false},
+			{[]string{"1x1", "1x2", "2x1", "2x2"}, 4, false},
+			{[]string{"2x3", "3x3"}, 3, false},
+			{[]string{"foreign-ragged", "foreign-nogrid", "foreign-spans", "foreign-nested"}, 3, false},
 		}
 	} else {
 		phases = []phase{
